@@ -27,6 +27,37 @@ from typing import Dict, List, Optional, Set
 FUNC = (ast.FunctionDef, ast.AsyncFunctionDef)
 
 
+def _class_table(tree) -> Dict[str, ast.ClassDef]:
+    return {n.name: n for n in ast.walk(tree) if isinstance(n, ast.ClassDef)}
+
+
+def _methods_with_inherited(cls: ast.ClassDef, table: Dict[str, ast.ClassDef], pred) -> Dict[str, ast.FunctionDef]:
+    """private methods of the class that satisfy `pred`, plus those of its base classes defined in the same module that the
+    class (or a nearer base) does not override — `self._helper(...)` resolves to them just the same"""
+    out: Dict[str, ast.FunctionDef] = {}
+    seen = set()
+    order = [cls]
+    i = 0
+    while i < len(order):
+        c = order[i]
+        i += 1
+        for b in c.bases:
+            nm = b.id if isinstance(b, ast.Name) else None
+            if nm in table and nm not in seen:
+                seen.add(nm)
+                order.append(table[nm])
+    defined = set()
+    for c in order:
+        for st in c.body:
+            if isinstance(st, ast.FunctionDef):
+                if st.name in defined:
+                    continue
+                defined.add(st.name)
+                if st.name.startswith("_") and not st.name.startswith("__") and pred(st):
+                    out[st.name] = st
+    return out
+
+
 def _is_static(fn) -> bool:
     return any(isinstance(d, ast.Name) and d.id == "staticmethod" for d in getattr(fn, "decorator_list", []))
 
@@ -179,8 +210,7 @@ def inline_trivial_helpers(tree: ast.Module) -> int:
             if isinstance(st, FUNC):
                 do_function(st, methods, cls_name)
             elif isinstance(st, ast.ClassDef):
-                ms = {s.name: s for s in st.body if isinstance(s, ast.FunctionDef) and s.name.startswith("_") and not s.name.startswith("__")
-                      and _plain_or_static(s) and _trivial(s) is not None}
+                ms = _methods_with_inherited(st, _class_table(tree), lambda f_: _plain_or_static(f_) and _trivial(f_) is not None)
                 walk(st.body, ms, st.name)
 
     for _ in range(3):  # helpers calling helpers
@@ -211,7 +241,7 @@ def _stores(node, name) -> int:
 
 
 PURE_FUNCS = {"len", "isinstance", "str", "int", "float", "abs", "min", "max", "bool", "tuple", "list", "set", "sorted", "sum", "any", "all", "range", "type"}
-PURE_METHODS = {"find", "rfind", "count", "startswith", "endswith", "strip", "lstrip", "rstrip", "split", "is_compatible", "lower", "upper", "index", "get", "keys", "values", "items"}
+PURE_METHODS = {"cdf", "pmf", "pdf", "sf", "find", "rfind", "count", "startswith", "endswith", "strip", "lstrip", "rstrip", "split", "is_compatible", "lower", "upper", "index", "get", "keys", "values", "items"}
 
 
 def _pure(e) -> bool:
@@ -676,11 +706,13 @@ def _inline_call(fn, body, call: ast.Call, receiver, caller_stored: Set[str]):
         out = out[:-1]
         if isinstance(result, ast.Constant) and result.value is None and not _contains_return(fn.body):
             result = None
-    for n in pre + out + ([result] if result is not None else []):
+    for k_, n in enumerate(pre + out + ([result] if result is not None else [])):
         for x in ast.walk(n):
             if isinstance(x, (ast.expr, ast.stmt)):
-                x.lineno, x.col_offset = call.lineno, call.col_offset
-                x.end_lineno, x.end_col_offset = getattr(call, "end_lineno", call.lineno), getattr(call, "end_col_offset", call.col_offset)
+                # the call site's line; columns keep the inlined nodes apart (rules key constructs by position)
+                oc = getattr(x, "col_offset", 0) or 0
+                x.lineno, x.col_offset = call.lineno, 1000 * (k_ + 1) + (call.col_offset % 1000) * 0 + oc % 1000
+                x.end_lineno, x.end_col_offset = getattr(call, "end_lineno", call.lineno), x.col_offset + 1
     return pre + out, result
 
 
@@ -705,6 +737,27 @@ def inline_straight_line_helpers(tree: ast.Module, keep=frozenset()) -> int:
             elif isinstance(st, ast.Expr) and isinstance(st.value, ast.Call):
                 call, kind = st.value, "expr"
             done = False
+            # a helper call wrapped in single-argument calls (`float(make_tuple(self._h(..)))`) is evaluated first: hoist it into a
+            # statement of its own so that it can be spliced in below
+            root = getattr(st, "value", None) if isinstance(st, (ast.Assign, ast.Return, ast.Expr)) else None
+            if root is not None and call is not None:
+                chain, cur = [], root
+                while isinstance(cur, ast.Call) and len(cur.args) == 1 and not cur.keywords and not isinstance(cur.args[0], ast.Starred):
+                    chain.append(cur)
+                    cur = cur.args[0]
+                if chain and isinstance(cur, ast.Call):
+                    f0 = cur.func
+                    inl = (isinstance(f0, ast.Name) and f0.id in by_name) or (isinstance(f0, ast.Attribute) and isinstance(f0.value, ast.Name) and f0.value.id in ("self", cls_name or "self") and f0.attr in methods)
+                    outer_plain = all(isinstance(c_.func, (ast.Name, ast.Attribute)) and not any(isinstance(n_, ast.Call) for n_ in ast.walk(c_.func)) for c_ in chain)
+                    if inl and outer_plain:
+                        _INL_COUNTER[0] += 1
+                        tmp = f"_hoisted__i{_INL_COUNTER[0]}"
+                        pre = ast.copy_location(ast.Assign(targets=[ast.Name(id=tmp, ctx=ast.Store())], value=cur), st)
+                        chain[-1].args[0] = ast.copy_location(ast.Name(id=tmp, ctx=ast.Load()), cur)
+                        ast.fix_missing_locations(pre)
+                        block[i:i + 1] = [pre, st]
+                        total += 1
+                        continue  # the hoisted assignment is looked at next
             if call is not None:
                 f = call.func
                 fn = recv = None
@@ -773,7 +826,7 @@ def inline_straight_line_helpers(tree: ast.Module, keep=frozenset()) -> int:
             if isinstance(st, FUNC):
                 do_function(st, methods, cls_name)
             elif isinstance(st, ast.ClassDef):
-                ms = {s.name: s for s in st.body if isinstance(s, ast.FunctionDef) and s.name.startswith("_") and not s.name.startswith("__") and s.name not in keep and _straight_line(s) is not None}
+                ms = _methods_with_inherited(st, _class_table(tree), lambda f_: f_.name not in keep and _straight_line(f_) is not None)
                 walk(st.body, ms, st.name)
 
     for _ in range(2):
@@ -1189,6 +1242,44 @@ def canonical_loop_tests(tree: ast.Module) -> int:
     return total
 
 
+def fold_inlining_temporaries(tree: ast.Module) -> int:
+    """A temporary introduced by helper inlining / hoisting (`…__i<k>`), assigned once with a pure value and used exactly once,
+    in the statement that directly follows, is folded into that use (nothing can happen in between)."""
+    import re as _re_
+
+    total = 0
+    for fn in [n for n in ast.walk(tree) if isinstance(n, FUNC)]:
+        for holder in ast.walk(fn):
+            for fld in ("body", "orelse", "finalbody"):
+                block = getattr(holder, fld, None)
+                if not (isinstance(block, list) and block and isinstance(block[0], ast.stmt)):
+                    continue
+                i = 0
+                while i < len(block) - 1:
+                    st, nxt = block[i], block[i + 1]
+                    if isinstance(st, ast.Assign) and len(st.targets) == 1 and isinstance(st.targets[0], ast.Name) and _re_.search(r"__i\d+$", st.targets[0].id):
+                        name = st.targets[0].id
+                        j = i + 1
+                        while j < len(block) - 1 and _loads(block[j], name) == 0 and isinstance(block[j], ast.Assign) and len(block[j].targets) == 1 and isinstance(block[j].targets[0], ast.Name) \
+                                and _re_.search(r"__i\d+$", block[j].targets[0].id) and _pure(block[j].value):
+                            j += 1
+                        nxt = block[j]
+                        if _stores(fn, name) == 1 and _loads(fn, name) == 1 and _loads(nxt, name) == 1 and _pure(st.value) and not isinstance(nxt, FUNC + (ast.ClassDef, ast.For, ast.While, ast.Try, ast.With)):
+                            # in compound statements (if) only the test may use it
+                            if isinstance(nxt, ast.If) and _loads(nxt.test, name) != 1:
+                                i += 1
+                                continue
+                            block[j] = _Subst({name: st.value}).visit(nxt)
+                            del block[i]
+                            total += 1
+                            i = max(i - 1, 0)
+                            continue
+                    i += 1
+    if total:
+        ast.fix_missing_locations(tree)
+    return total
+
+
 def normalise(tree: ast.Module, keep=frozenset(), facts=None) -> Dict[str, int]:
     k8 = positional_package_arguments(tree, facts)
     k9 = propagate_stable_aliases(tree, facts)
@@ -1199,6 +1290,7 @@ def normalise(tree: ast.Module, keep=frozenset(), facts=None) -> Dict[str, int]:
     k10 += canonical_loop_tests(tree)
     a = inline_trivial_helpers(tree)
     a2 = inline_straight_line_helpers(tree, keep)
+    a2 += fold_inlining_temporaries(tree) if a2 else 0
     b = propagate_condition_temps(tree)
     c = canonicalise_updates(tree)
     d = canonicalise_text_building(tree)
